@@ -33,7 +33,8 @@ from sim import simfs  # noqa: E402
 from sim import c03model as M  # noqa: E402
 
 PP = [{}, {"indent": 2}, {"indent": 0}, {"indent": 1, "spacer": "\t"}, {"quote": "'"}, {"end_comment": True}, {"align_values": True},
-      {"indent": 3, "align_values": True}, {"newlinechar": "\r\n"}]
+      {"indent": 3, "align_values": True}, {"newlinechar": "\r\n"}, {"indent": 2, "quote": "'", "end_comment": True, "align_values": True},
+      {"indent": 0, "newlinechar": "\r\n", "end_comment": True}, {"indent": 8, "spacer": "\t", "align_values": True}, {"indent": 1, "newlinechar": " "}]
 
 
 class Recorder:
@@ -318,7 +319,7 @@ class C03(core.Check):
         shadow = json.loads(json.dumps(model))
         steps = []
         weights = {"set": 6, "del": 2, "add_child": 3, "remove_child": 1, "reorder": 1, "singleton": 1, "snippet": 2, "update": 2,
-                   "hidden": 1, "read_missing": 2, "repair": 2, "share": 1, "create_child": 1, "print": 6}
+                   "hidden": 1, "read_missing": 2, "repair": 2, "share": 1, "create_child": 1, "update_nested": 2, "print": 6}
         for x in list(weights):
             if x != "print" and k.random() < 0.2:
                 weights[x] = 0
@@ -419,6 +420,21 @@ class C03(core.Check):
                             patch.append([key, a])
                 if patch:
                     steps.append({"op": "update", "path": path, "patch": patch})
+            elif name == "update_nested":
+                # one patch handed to mappyfile.update at the ROOT, reaching a nested object through dicts and
+                # lists (None placeholders skip the items before it)
+                if not path:
+                    continue
+                keys = sorted(self.vocab.keywords.get(typ, {}))
+                if not keys:
+                    continue
+                key = r.choice(keys)
+                a = self.gen_attr(r, typ, key)
+                cur = self.get_item(blk, key)
+                if not a or a[3].split(":")[0] in ("array", "tuple") or (cur is not None and cur[0] != "attr"):
+                    continue
+                self.set_item(blk, key, a)
+                steps.append({"op": "update_nested", "path": path, "key": key, "item": a})
             elif name == "hidden":
                 key = r.choice(["__note__", "__x__", "__comment__"])
                 kvs = [kk for kk, it in blk["items"] if it[0] == "kv"]
@@ -615,6 +631,15 @@ class C03(core.Check):
                         self.set_item(s, pk, a)
                         patch[pk.upper() if (steps % 2 and not s.get("nofactory")) else pk] = self.build_item(a)
                     mf.update(r, patch)
+                elif op == "update_nested":
+                    cur = self.get_item(s, lk)
+                    if cur is not None and cur[0] != "attr":
+                        continue
+                    self.set_item(s, lk, step["item"])
+                    patch = {lk: self.build_item(step["item"])}
+                    for pk, pi in reversed([tuple(p_) for p_ in step["path"]]):
+                        patch = {pk: patch} if pi is None else {pk: [None] * pi + [patch]}
+                    mf.update(real, patch)
                 elif op == "hidden_kv":
                     it = self.get_item(s, lk)
                     if it is None or it[0] != "kv":
